@@ -54,6 +54,8 @@ def growth_volumes(tier):
     for cyc in cycles:
         for z in ([None, -1.0, 1.5] if tier == 'quick' else [None, -2.0, -1.0, 0.5, 1.5]):
             out.append(dict(type='growth', cycle=cyc, divvol=1.9, noise=0.0 if z is None else 0.3, z=z, V0=1.0))
+    out.append(dict(type='growth', cycle=1.0, divvol=1.9, noise=0.3, z=-1.0, V0=1.0, reused=True))
+    out.append(dict(type='growth', cycle=0.7, divvol=1.9, noise=0.0, z=None, V0=1.0, reused=True))
     out.append(dict(type='state', rate_tree=('*', ('num', 0.4), ('id', A)), divvol=2.0, noise=0.0, z=None, V0=1.0))
     out.append(dict(type='state', rate_tree=('/', ('num', 1.2), ('+', ('num', 1), ('id', A))), divvol=1.6, noise=0.2, z=1.0, V0=1.0))
     return out
@@ -68,6 +70,10 @@ def make_volume(vol, impl, t0=0.0):
     params = impl.model.get_parameter_values()
     if vol['type'] == 'growth':
         v = StochasticTimeThresholdVolume(vol['cycle'], vol['divvol'], vol['noise'])
+        if vol.get('reused'):
+            # the same object served another cell before (earlier start, other volume): only the last initialisation counts
+            with Stream(list(RS.bm_pair(0.7))):
+                v.py_initialize(state, params, t0 - 3.0, vol['V0'] * 0.6)
         with Stream(script) as st:
             v.py_initialize(state, params, t0, vol['V0'])
         rate = math.log(2.0) / vol['cycle']
@@ -181,9 +187,7 @@ def growth_invariants(cfg, times, vdt, vref, got):
                 first_div = s
                 break
             k += 1
-        if first_div is not None and abs(first_div - times[-1]) < 1e-9:
-            pass    # division reported at the very last grid time: the run ends there either way; the flag is not claimed
-        elif first_div is not None and first_div < times[-1]:
+        if first_div is not None and first_div <= times[-1] + 1e-9:
             exp_T = [t for t in times if t <= first_div]
             if not got['divided'] or T != exp_T:
                 return 'division-end', 'division at step time %.4g: expected flagged result ending at %s, got divided=%s, times %s' % (
